@@ -9,9 +9,49 @@ from . import addr_common
 PROP = "C01"
 
 
+def extra_jobs(tier, seed):
+    def f(cx, exe, opts, extra, name):
+        """Every IDN conversion forced to fail (link-time wrap): the high-level decision must still equal the composition of the
+        per-part validators (which now report the IDN error) - no silent fall-back to ASCII rules in the e-mail level glue."""
+        from .. import addrgen as AG, model as _model, build
+        wexe = cx.exe("asan-wrapall", ldflags=("-Wl,--wrap=idn2_to_ascii_8z",), driver_defs=("VERIF_WRAP_IDN2",))
+        mdl = _model.Model()
+        addrs = AG.address_corpus("quick", seed, mdl)[seed % 5::5]
+        jobs = []
+        for code, buf in ((-100, 0), (-100, 1), (-205, 0), (-304, 1), (-209, 0)):
+            sel = addrs[(abs(code) + buf) % 3::3]
+            jobs.append((w_forced, (wexe, sel, opts, code, buf)))
+        return jobs
+    return f
+
+
+def w_forced(wexe, addrs, opts, code, buf):
+    from .. import addrgen as AG, model as _model, monitors, driver, build
+    import collections
+    mdl = _model.Model()
+    cfg = monitors.Cfg(mdl, opts, False, {}, None)
+    part = {"counters": collections.Counter(), "viol": [], "samples": [], "distinct": 0, "sets": {}}
+    env = build.san_env({"VERIF_IDN_FAIL": str(code), "VERIF_IDN_FAIL_BUF": str(buf)})
+    lines = [driver.A_line(a, sections=1 | 2 | 4 | 8, allow=cfg.allow_on) for a in addrs]
+    recs, crashes = driver.run_lines_resilient(wexe, lines, env=env)
+    for idx, sig, err in crashes:
+        a = addrs[idx] if idx >= 0 else b""
+        part["viol"].append(("forced-idn-failure/crash/%s" % sig, {"address": core.b2s(a), "idn_code": code, "buffer": buf}, {"stderr": err[-1500:]}))
+    for a, rec in zip(addrs, recs):
+        if rec is None:
+            continue
+        out = []
+        monitors.mon_c01(cfg, a, rec, out, part["counters"])
+        for key, wit, det in out:
+            part["viol"].append(("forced-idn-failure/" + key, dict(wit, idn_code=code, buffer=buf), det))
+    part["counters"]["forced-idn.addresses"] += len(addrs)
+    part["distinct"] = len(addrs)
+    return {PROP: part}
+
+
 def main(tier, seed):
     rep, cx, n = addr_common.run(
-        PROP, tier, seed, sections=1 | 2 | 4 | 8 | 16 | 32, variants=[("asan", {}, False)],
+        PROP, tier, seed, sections=1 | 2 | 4 | 8 | 16 | 32, variants=[("asan", {}, False)], extra_jobs=extra_jobs(tier, seed),
         rule="", assumptions=["validity of each half is defined by the library's own public per-part validators (their "
                               "correctness is C02-C05's job)",
                               "bracketed domains shorter than 9 bytes are not judged (length pre-check vs untagged IPv6)"])
